@@ -55,6 +55,10 @@ def call_builtin(E, fv, args, kwargs, st, node):
     if obj in (_struct.pack, _struct.unpack, _struct.unpack_from, _struct.calcsize, _struct.pack_into):
         from . import struct_model
         return struct_model.call(E, obj.__name__, args, kwargs, st, node)
+    if isinstance(getattr(obj, "__self__", None), _struct.Struct) and obj.__name__ in ("pack", "unpack", "unpack_from", "pack_into"):
+        # a method of a precompiled struct.Struct (a module-level constant of the repository): the same model, with its format
+        from . import struct_model
+        return struct_model.call(E, obj.__name__, [obj.__self__.format] + list(args), kwargs, st, node, node_arg_shift=-1)
     if hasattr(builtins, name) and getattr(builtins, name) is obj:
         h = BUILTINS.get(name)
         if E.externals.get(name) is not None and (h is None or (args and isinstance(args[0], ObjV))):
